@@ -45,7 +45,8 @@ Definition settings_eqb (a b : settings) : bool :=
 Inductive table :=
 | TFit (s : settings) (sig : Z)                 (* compute_features(sig, settings) *)
 | TEdges (t : table) (thr : dict)               (* recompute_edges(t, thr) *)
-| TLoaded (id : Z).
+| TLoaded (id : Z)
+| TEpoch (s : settings) (flat : Z) (i : nat).   (* epoch i of compute_features(flattened 2-D array `flat`, settings) *)
 
 Record obj := { o_set : settings; o_sig : option Z; o_df : option table }.
 
@@ -55,12 +56,40 @@ Inductive op :=
 | OLoad (id sig : Z)
 | OEditThr (k : string) (v : Z)
 | OEditBk (k : string) (v : Z)
-| OSetCenter (c : bool).
+| OSetCenter (c : bool)
+(* attribute assignment: the stored object is REPLACED (no shorthand expansion happens there) *)
+| OSetThr (d : dict)                            (* bm.thresholds = {...} *)
+| OSetBk (d : dict)                             (* bm.burst_kwargs = {...} *)
+| OSetMethod (amp : bool)                       (* bm.burst_method = ... *)
+| OSetFek (f : Z)                               (* bm.find_extrema_kwargs = ... *)
+| OSetRs (b : bool).                            (* bm.return_samples = ... *)
 
 Definition construct (s : settings) : obj :=
   {| o_set := {| st_center := st_center s; st_amp := st_amp s; st_bk := st_bk s;
                  st_thr := expand_thresholds (st_thr s); st_fek := st_fek s; st_rs := st_rs s |};
      o_sig := None; o_df := None |}.
+
+(* Constructor ARGUMENTS (objs/fit.py:21-63): None = the argument was not given.  Documented defaults:
+   center_extrema='peak', burst_method='cycles', burst_kwargs -> {}, return_samples=True,
+   find_extrema_kwargs -> {'filter_kwargs': {'n_cycles': 3}} (code 0), and for thresholds=None the
+   per-method default dictionaries (values in thousandths). *)
+Record cargs := { ca_center : option bool; ca_amp : option bool; ca_bk : option dict; ca_thr : option dict;
+                  ca_fek : option Z; ca_rs : option bool }.
+Definition default_thr (amp : bool) : dict :=
+  if amp then [("burst_fraction_threshold", 1000%Z); ("min_n_cycles", 3%Z)]
+  else [("amp_fraction_threshold", 0%Z); ("amp_consistency_threshold", 500%Z);
+        ("period_consistency_threshold", 500%Z); ("monotonicity_threshold", 800%Z); ("min_n_cycles", 3%Z)].
+Definition settings_of_args (a : cargs) : settings :=
+  let amp := match ca_amp a with Some b => b | None => false end in
+  {| st_center := match ca_center a with Some c => c | None => true end;
+     st_amp := amp;
+     st_bk := match ca_bk a with Some d => d | None => [] end;
+     st_thr := match ca_thr a with Some d => d | None => default_thr amp end;
+     st_fek := match ca_fek a with Some f => f | None => 0%Z end;
+     st_rs := match ca_rs a with Some r => r | None => true end |}.
+Definition construct_args (a : cargs) : obj := construct (settings_of_args a).
+Definition no_args : cargs :=
+  {| ca_center := None; ca_amp := None; ca_bk := None; ca_thr := None; ca_fek := None; ca_rs := None |}.
 
 Definition with_thr (s : settings) (d : dict) : settings :=
   {| st_center := st_center s; st_amp := st_amp s; st_bk := st_bk s; st_thr := d; st_fek := st_fek s; st_rs := st_rs s |}.
@@ -68,6 +97,12 @@ Definition with_bk (s : settings) (d : dict) : settings :=
   {| st_center := st_center s; st_amp := st_amp s; st_bk := d; st_thr := st_thr s; st_fek := st_fek s; st_rs := st_rs s |}.
 Definition with_center (s : settings) (c : bool) : settings :=
   {| st_center := c; st_amp := st_amp s; st_bk := st_bk s; st_thr := st_thr s; st_fek := st_fek s; st_rs := st_rs s |}.
+Definition with_amp (s : settings) (a : bool) : settings :=
+  {| st_center := st_center s; st_amp := a; st_bk := st_bk s; st_thr := st_thr s; st_fek := st_fek s; st_rs := st_rs s |}.
+Definition with_fek (s : settings) (f : Z) : settings :=
+  {| st_center := st_center s; st_amp := st_amp s; st_bk := st_bk s; st_thr := st_thr s; st_fek := f; st_rs := st_rs s |}.
+Definition with_rs (s : settings) (b : bool) : settings :=
+  {| st_center := st_center s; st_amp := st_amp s; st_bk := st_bk s; st_thr := st_thr s; st_fek := st_fek s; st_rs := b |}.
 
 (* what compute_features wrote into its arguments before the repair (features.py:129-137) *)
 Definition legacy_writeback (s : settings) : settings :=
@@ -91,6 +126,11 @@ Definition step_gen (wb : settings -> settings) (o : obj) (p : op) : result obj 
   | OEditThr k v => Ok {| o_set := with_thr (o_set o) (set (st_thr (o_set o)) k v); o_sig := o_sig o; o_df := o_df o |}
   | OEditBk k v => Ok {| o_set := with_bk (o_set o) (set (st_bk (o_set o)) k v); o_sig := o_sig o; o_df := o_df o |}
   | OSetCenter c => Ok {| o_set := with_center (o_set o) c; o_sig := o_sig o; o_df := o_df o |}
+  | OSetThr d => Ok {| o_set := with_thr (o_set o) d; o_sig := o_sig o; o_df := o_df o |}
+  | OSetBk d => Ok {| o_set := with_bk (o_set o) d; o_sig := o_sig o; o_df := o_df o |}
+  | OSetMethod a => Ok {| o_set := with_amp (o_set o) a; o_sig := o_sig o; o_df := o_df o |}
+  | OSetFek f => Ok {| o_set := with_fek (o_set o) f; o_sig := o_sig o; o_df := o_df o |}
+  | OSetRs b => Ok {| o_set := with_rs (o_set o) b; o_sig := o_sig o; o_df := o_df o |}
   end.
 Definition step := step_gen (fun s => s).
 Definition step_legacy := step_gen legacy_writeback.
@@ -107,6 +147,11 @@ Fixpoint intended (s : settings) (ops : list op) : settings :=
   | OEditThr k v :: t => intended (with_thr s (set (st_thr s) k v)) t
   | OEditBk k v :: t => intended (with_bk s (set (st_bk s) k v)) t
   | OSetCenter c :: t => intended (with_center s c) t
+  | OSetThr d :: t => intended (with_thr s d) t
+  | OSetBk d :: t => intended (with_bk s d) t
+  | OSetMethod a :: t => intended (with_amp s a) t
+  | OSetFek f :: t => intended (with_fek s f) t
+  | OSetRs b :: t => intended (with_rs s b) t
   | _ :: t => intended s t
   end.
 
@@ -124,10 +169,121 @@ Fixpoint run_calls (e : Env) (l : list Arg) : Env * list Res :=
   end.
 End Purity.
 
+(* ------------------------------------------------------------------------------------------ *)
+(* BycycleGroup (objs/fit.py:262-451), C14 "models mirror df_features and sigs position by position".
+   Positions of a 3-D array are flattened row-major (entry [i][j] of n0 x n1 is position i*n1 + j).
+   Every model is constructed with the group's settings — the same dictionary OBJECTS, so an item
+   assignment on the group's thresholds / burst options is seen by every model — and loaded with its
+   table and its signal.  recompute_edges(r) recomputes every model and, as repaired, writes the
+   model's new table back into the group's df_features; the Legacy step leaves df_features alone. *)
+Inductive gshape :=
+| G2Rows (n : nat)              (* 2-D, axis=0: one table per row *)
+| G2Flat (n : nat)              (* 2-D, axis=None: rows = epochs of the flattened signal *)
+| G3 (n0 n1 : nat)              (* 3-D, axis=(0,1): one table per 1-D signal *)
+| G3Ax0 (n0 n1 : nat)           (* 3-D, axis=0: plane [i] flattened, entry [i][j] = its epoch j *)
+| G3Ax1 (n0 n1 : nat).          (* 3-D, axis=1: plane [:, j] flattened, entry [i][j] = its epoch i *)
+Definition npos (sh : gshape) : nat :=
+  match sh with G2Rows n | G2Flat n => n | G3 a b | G3Ax0 a b | G3Ax1 a b => a * b end.
+(* symbolic identifiers of the 1-D signal at position p and of the 2-D plane (axis, i) of array arr *)
+Definition cell_id (arr : Z) (p : nat) : Z := (arr * 4096 + Z.of_nat p)%Z.
+Definition plane_id (arr : Z) (axis i : nat) : Z := (- (arr * 4096 + Z.of_nat (axis * 2048 + i)) - 1)%Z.
+Definition table_at (s : settings) (arr : Z) (sh : gshape) (p : nat) : table :=
+  match sh with
+  | G2Rows _ | G3 _ _ => TFit s (cell_id arr p)
+  | G2Flat _ => TEpoch s arr p
+  | G3Ax0 _ n1 => TEpoch s (plane_id arr 0 (p / n1)) (p mod n1)
+  | G3Ax1 _ n1 => TEpoch s (plane_id arr 1 (p mod n1)) (p / n1)
+  end.
+
+Record group := { g_set : settings; g_sigs : list Z; g_dfs : list table; g_models : list obj }.
+Inductive gop :=
+| GFit (arr : Z) (sh : gshape)
+| GEditThr (k : string) (v : Z)          (* bg.thresholds[k] = v : shared with every model *)
+| GEditBk (k : string) (v : Z)
+| GRecompute (r : Z).
+
+Definition construct_group (a : cargs) : group :=
+  {| g_set := o_set (construct_args a); g_sigs := []; g_dfs := []; g_models := [] |}.
+Definition load_model (s : settings) (sig : Z) (t : table) : obj := {| o_set := s; o_sig := Some sig; o_df := Some t |}.
+Definition set_settings (s : settings) (o : obj) : obj := {| o_set := s; o_sig := o_sig o; o_df := o_df o |}.
+
+Fixpoint mapM {A B} (f : A -> result B) (l : list A) : result (list B) :=
+  match l with [] => Ok [] | a :: t => do b <- f a; do bs <- mapM f t; Ok (b :: bs) end.
+Definition some_tables (l : list obj) : list table :=
+  flat_map (fun o => match o_df o with Some t => [t] | None => [] end) l.
+
+Definition gstep_gen (writeback : bool) (g : group) (p : gop) : result group :=
+  match p with
+  | GFit arr sh =>
+    let pos := seq 0 (npos sh) in
+    let sigs := map (cell_id arr) pos in
+    let dfs := map (table_at (g_set g) arr sh) pos in
+    Ok {| g_set := g_set g; g_sigs := sigs; g_dfs := dfs;
+          g_models := map (fun p => load_model (g_set g) (cell_id arr p) (table_at (g_set g) arr sh p)) pos |}
+  | GEditThr k v =>
+    let s := with_thr (g_set g) (set (st_thr (g_set g)) k v) in
+    Ok {| g_set := s; g_sigs := g_sigs g; g_dfs := g_dfs g; g_models := map (set_settings s) (g_models g) |}
+  | GEditBk k v =>
+    let s := with_bk (g_set g) (set (st_bk (g_set g)) k v) in
+    Ok {| g_set := s; g_sigs := g_sigs g; g_dfs := g_dfs g; g_models := map (set_settings s) (g_models g) |}
+  | GRecompute r =>
+    match g_models g with
+    | [] => Err EOther                         (* never fitted: the object has no `sigs` attribute yet *)
+    | _ => do ms <- mapM (fun m => step m (ORecompute r)) (g_models g);
+           Ok {| g_set := g_set g; g_sigs := g_sigs g;
+                 g_dfs := if writeback then some_tables ms else g_dfs g; g_models := ms |}
+    end
+  end.
+Definition gstep := gstep_gen true.
+Definition gstep_legacy := gstep_gen false.
+Fixpoint grun_gen (st : group -> gop -> result group) (g : group) (ops : list gop) : result group :=
+  match ops with [] => Ok g | p :: t => do g' <- st g p; grun_gen st g' t end.
+Definition grun := grun_gen gstep.
+Definition grun_legacy := grun_gen gstep_legacy.
+
+(* the mirror property: position by position, the model's table is the group's table and the
+   model's signal is the group's signal (and there are as many models as tables and signals) *)
+Definition mirror (g : group) : Prop :=
+  map o_df (g_models g) = map Some (g_dfs g) /\ map o_sig (g_models g) = map Some (g_sigs g).
+Fixpoint gintended (s : settings) (ops : list gop) : settings :=
+  match ops with
+  | [] => s
+  | GEditThr k v :: t => gintended (with_thr s (set (st_thr s) k v)) t
+  | GEditBk k v :: t => gintended (with_bk s (set (st_bk s) k v)) t
+  | _ :: t => gintended s t
+  end.
+
+(* ------------------------------------------------------------------------------------------ *)
 (* correspondence: observable state after a history *)
-Definition obs := (dict * dict * bool)%type.    (* thresholds, burst options, centre *)
-Definition obs_of (o : obj) : obs := (st_thr (o_set o), st_bk (o_set o), st_center (o_set o)).
-Definition run_history (x : settings * list op) : result obs := rmap obs_of (run (construct (fst x)) (snd x)).
+(* thresholds, burst options, centre, method, find_extrema_kwargs code, return_samples *)
+Definition obs := (dict * dict * bool * bool * Z * bool)%type.
+Definition obs_of_settings (s : settings) : obs := (st_thr s, st_bk s, st_center s, st_amp s, st_fek s, st_rs s).
+Definition obs_of (o : obj) : obs := obs_of_settings (o_set o).
+Definition run_history (x : cargs * list op) : result obs := rmap obs_of (run (construct_args (fst x)) (snd x)).
 Definition obs_eqb (a b : obs) : bool :=
-  let '(t, b1, c) := a in let '(t', b1', c') := b in dict_eqb t t' && dict_eqb b1 b1' && Bool.eqb c c'.
+  let '(t, b1, c, m, f, r) := a in let '(t', b1', c', m', f', r') := b in
+  dict_eqb t t' && dict_eqb b1 b1' && Bool.eqb c c' && Bool.eqb m m' && Z.eqb f f' && Bool.eqb r r'.
 Definition bad_history := report run_history (result_eqb obs_eqb).
+
+(* group: stored settings, the signal identifier held by every model (position order), whether every
+   model holds the group's table of its position (decided on the symbolic tables), and whether every
+   model holds the group's current settings *)
+Fixpoint table_eqb (a b : table) : bool :=
+  match a, b with
+  | TFit s x, TFit s' x' => settings_eqb s s' && Z.eqb x x'
+  | TEdges t d, TEdges t' d' => table_eqb t t' && dict_eqb d d'
+  | TLoaded i, TLoaded i' => Z.eqb i i'
+  | TEpoch s f i, TEpoch s' f' i' => settings_eqb s s' && Z.eqb f f' && Nat.eqb i i'
+  | _, _ => false
+  end.
+Definition gobs := (obs * list Z * list bool * list bool)%type.
+Definition gobs_of (g : group) : gobs :=
+  (obs_of_settings (g_set g),
+   map (fun m => match o_sig m with Some z => z | None => (-1)%Z end) (g_models g),
+   map (fun mt => option_eqb table_eqb (o_df (fst mt)) (Some (snd mt))) (combine (g_models g) (g_dfs g)),
+   map (fun m => settings_eqb (o_set m) (g_set g)) (g_models g)).
+Definition run_group_history (x : cargs * list gop) : result gobs := rmap gobs_of (grun (construct_group (fst x)) (snd x)).
+Definition gobs_eqb (a b : gobs) : bool :=
+  let '(o, s, m, c) := a in let '(o', s', m', c') := b in
+  obs_eqb o o' && list_eqb Z.eqb s s' && list_eqb Bool.eqb m m' && list_eqb Bool.eqb c c'.
+Definition bad_group_history := report run_group_history (result_eqb gobs_eqb).
